@@ -776,7 +776,7 @@ func (g *G) arrOp(c *Ctx, a []any, d int) string {
 			"[.[] as [$a, $b] ?// {k: $a, v: $b} ?// $a | [$a, $b]]",
 			"[.[] as {k: $a} ?// [$a] | $a]",
 			"[.[] as [$a] ?// $a | $a | tostring]",
-			"[.[] as {v: $a} ?// [$a, $b] ?// $a | {a: $a, b: $b}]",
+			"[.[] as {v: $a, t: $b} ?// [$a, $b] ?// $a | {a: $a, b: $b}]",
 			". as [$a] ?// {a: $a} ?// $a | [$a]",
 			"[.[] as [$a] ?// $a | if ($a | type) == \"array\" then error(\"arr\") else $a end]",
 		)
